@@ -1,4 +1,4 @@
-import PermutaModel.Lemmas.C13Sym2
+import PermutaModel.Lemmas.C13Basis
 import PermutaModel.Driver.C13
 
 /-!
@@ -7,6 +7,11 @@ import PermutaModel.Driver.C13
 Property theorems only (helpers are in `Lemmas/C13*.lean`).  `Model.C13.*` mirrors
 `permutils/finite.py`, `polynomial.py`, `insertion_encodable.py`; `Spec.C13.*` are the classes the
 structure theorems speak about (`Juxt`, `L2`, `polyClass`, `Finite`, `Polynomial`, `Rightmost`).
+
+Also proved (B-tier): the Erdős–Szekeres bound for the class levels (`erdos_szekeres_level`,
+`isFinite_iff_eventually_empty`), closure of the ten classes under containment (`polyClass_closed`,
+`class_subset_level`) and the Fibonacci lower bound for classes declared non-polynomial
+(`class_fib_lower_bound`, `nonpolynomial_level_fib`).
 
 What is **cited, not proved**: the Kaiser–Klazar / Huczynska–Vatter theorem (polynomial growth ⇔ the
 basis meets the ten classes) and the Albert–Linton–Ruškuc criterion (regular insertion encoding ⇔ the
@@ -415,5 +420,236 @@ theorem infinite_never_empty (B : List NSeq) (o : Bool) (hB : ∀ b ∈ B, IsPer
 
 example : ∃ σ, IsPerm σ ∧ σ.length = 5 ∧ Model.avoidsAll σ [[1, 0, 2], [2, 1, 0]] = true :=
   infinite_never_empty [[1, 0, 2], [2, 1, 0]] false (by decide) (by decide) 5
+
+/-! ## B2 — Erdős–Szekeres: finite classes are empty beyond the bound -/
+
+/-- **Erdős–Szekeres**: a duplicate-free sequence avoiding the increasing pattern of length `a` and
+    the decreasing pattern of length `b` has at most `(a-1)(b-1)` entries -/
+theorem erdos_szekeres (σ : NSeq) (hσ : σ.Nodup) (a b : Nat) (ha : ¬ Contains σ (Model.identity a))
+    (hb : ¬ Contains σ (Model.monoDec b)) : σ.length ≤ (a - 1) * (b - 1) :=
+  es_length_le hσ ha hb
+
+example : ¬ ([0, 2, 1, 3].length ≤ (3 - 1) * (2 - 1)) ∧ Contains [0, 2, 1, 3] (Model.monoDec 2) :=
+  ⟨by decide, ⟨[1, 2], (C01.mem_spec_iff _ _ _).mp (by decide)⟩⟩
+
+/-- **the class level is empty beyond the Erdős–Szekeres bound**: if the basis (any list) contains
+    the increasing permutation of length `a` and the decreasing permutation of length `b`, level `n`
+    of `Av(B)` is empty for every `n > (a-1)(b-1)` -/
+theorem erdos_szekeres_level (B : List NSeq) (a b : Nat) (ha : Model.identity a ∈ B)
+    (hb : Model.monoDec b ∈ B) (n : Nat) (hn : (a - 1) * (b - 1) < n) : Spec.C02.level B n = [] := by
+  apply List.eq_nil_iff_forall_not_mem.mpr
+  intro σ hσ
+  obtain ⟨⟨hperm, hav⟩, hlen⟩ := C02L.mem_level.mp hσ
+  unfold Model.avoidsAll at hav
+  rw [List.all_eq_true] at hav
+  have h1 : ¬ Contains σ (Model.identity a) := by
+    rw [← C01.containsOne_iff σ _ (isPerm_identity a) hperm]
+    have := hav _ ha; simpa using this
+  have h2 : ¬ Contains σ (Model.monoDec b) := by
+    rw [← C01.containsOne_iff σ _ (isPerm_monoDec b) hperm]
+    have := hav _ hb; simpa using this
+  have := es_length_le hperm.1 h1 h2
+  omega
+
+example : Spec.C02.level [[0, 1, 2], [1, 0]] 3 = [] :=
+  erdos_szekeres_level _ 3 2 (by decide) (by decide) 3 (by decide)
+/-- … and the bound is attained: level `(a-1)(b-1)` of that class is not empty -/
+example : Spec.C02.level [[0, 1, 2], [1, 0]] 2 ≠ [] := by
+  have : [0, 1] ∈ Spec.C02.level [[0, 1, 2], [1, 0]] 2 := by
+    refine C02L.mem_level.mpr ⟨⟨by decide, ?_⟩, rfl⟩
+    rw [C01.avoidsAll_iff _ _ (by decide) (by decide)]
+    intro p hp hc
+    simp only [List.mem_cons, List.not_mem_nil, or_false] at hp
+    rcases hp with rfl | rfl
+    · have := Contains.length_le hc; simp at this
+    · have := pattern_of_identity_increasing (n := 2) (b := [1, 0]) hc; simp at this
+  intro h; rw [h] at this; simp at this
+
+/-- **a class that `is_finite` declares finite is empty beyond the Erdős–Szekeres bound** of the
+    increasing and the decreasing basis element it found (any list `B`, any container) -/
+theorem finite_empty_beyond_bound (B : List NSeq) (o : Bool) (h : isFinite ⟨B, o⟩ = true) :
+    ∃ p ∈ B, ∃ q ∈ B, p = Model.identity p.length ∧ q = Model.monoDec q.length ∧
+      ∀ n, (p.length - 1) * (q.length - 1) < n → Spec.C02.level B n = [] := by
+  obtain ⟨⟨p, hp, ep⟩, ⟨q, hq, eq⟩⟩ := (isFinite_iff B o).mp h
+  exact ⟨p, hp, q, hq, ep, eq, fun n hn =>
+    erdos_szekeres_level B p.length q.length (ep ▸ hp) (eq ▸ hq) n hn⟩
+
+/-- **the verdict of `is_finite` is the truth about enumeration**: the class is declared finite iff
+    its levels are eventually empty -/
+theorem isFinite_iff_eventually_empty (B : List NSeq) (o : Bool) (hB : ∀ b ∈ B, IsPerm b) :
+    isFinite ⟨B, o⟩ = true ↔ ∃ N, ∀ n, N < n → Spec.C02.level B n = [] := by
+  constructor
+  · intro h
+    obtain ⟨p, _, q, _, _, _, hall⟩ := finite_empty_beyond_bound B o h
+    exact ⟨_, hall⟩
+  · rintro ⟨N, hN⟩
+    by_contra hf
+    have hf' : isFinite ⟨B, o⟩ = false := by simpa using hf
+    obtain ⟨σ, h1, h2, h3⟩ := infinite_never_empty B o hB hf' (N + 1)
+    have : σ ∈ Spec.C02.level B (N + 1) := C02L.mem_level.mpr ⟨⟨h1, h3⟩, h2⟩
+    rw [hN (N + 1) (by omega)] at this
+    simp at this
+
+/-! ## B3 — the ten classes are closed under containment -/
+
+/-- **each of the ten minimal non-polynomial classes is closed under pattern containment** -/
+theorem polyClass_closed {σ π : NSeq} (hσ : IsPerm σ) (hπ : IsPerm π) (h : Contains σ π) (t : Nat)
+    (ht : polyClass t σ) : polyClass t π :=
+  polyClass_closed' hσ hπ h t ht
+
+example : polyClass 8 [0, 2, 1, 3] ∧ Contains [0, 2, 1, 3] [1, 0, 2] ∧ ¬ polyClass 8 [2, 0, 1] := by
+  refine ⟨?_, ⟨[1, 2, 3], (C01.mem_spec_iff _ _ _).mp (by decide)⟩, ?_⟩
+  · exact (mem_findType_iff_class _ (by decide) 8).mp (by decide)
+  · rw [← mem_findType_iff_class _ (by decide) 8]; decide
+
+/-- `L2` (direct sums of `1` and `21`) is exactly "non-adjacent entries increase" -/
+theorem L2_iff_nonadjacent_increase (σ : NSeq) (hσ : IsPerm σ) :
+    L2 σ ↔ ∀ i j, i + 2 ≤ j → j < σ.length → σ.getD i 0 < σ.getD j 0 :=
+  L2_iff_near hσ
+
+/-- **a class whose basis misses class `t` contains all of class `t`**: every member of class `t`
+    is listed in the level of its length -/
+theorem class_subset_level (B : List NSeq) (hB : ∀ b ∈ B, IsPerm b) (t : Nat)
+    (hmiss : ∀ b ∈ B, ¬ polyClass t b) {σ : NSeq} (hσ : IsPerm σ) (hc : polyClass t σ) :
+    σ ∈ Spec.C02.level B σ.length := by
+  refine C02L.mem_level.mpr ⟨⟨hσ, ?_⟩, rfl⟩
+  rw [C01.avoidsAll_iff σ B hσ hB]
+  intro b hb hcon
+  exact hmiss b hb (polyClass_closed hσ (hB b hb) hcon t hc)
+
+/-! ## B1 — Fibonacci lower bound -/
+
+/-- **each of the ten classes has at least `fib (n+1)` members of every length `n`**
+    (`Nat.fib` = 0, 1, 1, 2, 3, 5, …; so 1, 1, 2, 3, 5, … for `n` = 0, 1, 2, …) -/
+theorem class_fib_lower_bound (t : Nat) (ht : t < 10) (n : Nat) :
+    ∃ F : List NSeq, F.Nodup ∧ Nat.fib (n + 1) ≤ F.length ∧
+      ∀ σ ∈ F, IsPerm σ ∧ σ.length = n ∧ polyClass t σ :=
+  exists_fibFam t ht n
+
+/-- for `L2` the count is exact: the members of length `n` are listed by `l2Fam n` without
+    repetition and there are `fib (n+1)` of them -/
+theorem L2_count (n : Nat) :
+    (l2Fam n).Nodup ∧ (l2Fam n).length = Nat.fib (n + 1) ∧ ∀ σ, σ ∈ l2Fam n ↔ L2 σ ∧ σ.length = n :=
+  ⟨l2Fam_nodup n, l2Fam_length n, mem_l2Fam_iff n⟩
+
+example : l2Fam 3 = [[0, 1, 2], [1, 0, 2], [0, 2, 1]] := by decide
+
+/-- **a class that `is_polynomial` declares non-polynomial contains, for some `t`, all of class `t`**,
+    in particular `fib (n+1)` distinct members of it in every level `n` -/
+theorem nonpolynomial_contains_class (B : List NSeq) (o : Bool) (hB : ∀ b ∈ B, IsPerm b)
+    (h : isPolynomial ⟨B, o⟩ = false) :
+    ∃ t, t < 10 ∧ (∀ σ, IsPerm σ → polyClass t σ → σ ∈ Spec.C02.level B σ.length) ∧
+      ∀ n, ∃ F : List NSeq, F.Nodup ∧ Nat.fib (n + 1) ≤ F.length ∧
+        ∀ σ ∈ F, polyClass t σ ∧ σ ∈ Spec.C02.level B n := by
+  have hnp : ¬ Polynomial B := by rw [← isPolynomial_iff B o hB]; simp [h]
+  unfold Polynomial at hnp
+  have : ∃ t, t < 10 ∧ ∀ b ∈ B, ¬ polyClass t b := by
+    by_contra hcon
+    apply hnp
+    intro t ht
+    by_contra hno
+    exact hcon ⟨t, ht, fun b hb hc => hno ⟨b, hb, hc⟩⟩
+  obtain ⟨t, ht, hmiss⟩ := this
+  refine ⟨t, ht, fun σ hσ hc => class_subset_level B hB t hmiss hσ hc, fun n => ?_⟩
+  obtain ⟨F, hnd, hlen, hall⟩ := class_fib_lower_bound t ht n
+  refine ⟨F, hnd, hlen, fun σ hσ => ?_⟩
+  obtain ⟨h1, h2, h3⟩ := hall σ hσ
+  exact ⟨h3, h2 ▸ class_subset_level B hB t hmiss h1 h3⟩
+
+/-- **classes declared non-polynomial have at least Fibonacci-many members of every length** -/
+theorem nonpolynomial_level_fib (B : List NSeq) (o : Bool) (hB : ∀ b ∈ B, IsPerm b)
+    (h : isPolynomial ⟨B, o⟩ = false) (n : Nat) : Nat.fib (n + 1) ≤ (Spec.C02.level B n).length := by
+  obtain ⟨t, _, _, hfam⟩ := nonpolynomial_contains_class B o hB h
+  obtain ⟨F, hnd, hlen, hall⟩ := hfam n
+  exact hlen.trans (List.subperm_of_subset hnd fun σ hσ => (hall σ hσ).2).length_le
+
+example : Nat.fib (5 + 1) = 8 ∧ 8 ≤ (Spec.C02.level [[0, 2, 1]] 5).length :=
+  ⟨by decide, nonpolynomial_level_fib [[0, 2, 1]] false (by decide) (by decide) 5⟩
+
+/-- **consistency of the two verdicts**: a class declared finite is never declared non-polynomial
+    (a non-polynomial class has `fib (n+1) ≥ 1` members of every length, a finite one eventually none) -/
+theorem finite_implies_polynomial (B : List NSeq) (o o' : Bool) (hB : ∀ b ∈ B, IsPerm b)
+    (h : isFinite ⟨B, o⟩ = true) : isPolynomial ⟨B, o'⟩ = true := by
+  by_contra hp
+  have hp' : isPolynomial ⟨B, o'⟩ = false := by simpa using hp
+  obtain ⟨N, hN⟩ := (isFinite_iff_eventually_empty B o hB).mp h
+  have h1 := nonpolynomial_level_fib B o' hB hp' (N + 1)
+  rw [hN (N + 1) (by omega)] at h1
+  simp at h1
+
+example : isPolynomial ⟨[[0, 1, 2], [2, 1, 0]], false⟩ = true :=
+  finite_implies_polynomial _ false false (by decide) (by decide)
+
+/-! ## B4 — `Basis(*B)` (sort + prune to the minimal elements) changes no verdict -/
+
+/-- **the verdicts on `Basis(*B)` are the verdicts on `B`**: all the criteria ask whether the basis
+    meets a class closed under containment, and pruning keeps a contained element of every element -/
+theorem verdicts_basisOf (B : List NSeq) (o o' : Bool) (hB : ∀ b ∈ B, IsPerm b) :
+    isFinite ⟨basisOf B, o⟩ = isFinite ⟨B, o'⟩ ∧ isPolynomial ⟨basisOf B, o⟩ = isPolynomial ⟨B, o'⟩ ∧
+    isRightmost ⟨basisOf B, o⟩ = isRightmost ⟨B, o'⟩ ∧ isMaximum ⟨basisOf B, o⟩ = isMaximum ⟨B, o'⟩ ∧
+    isInsEnc ⟨basisOf B, false⟩ = isInsEnc ⟨B, false⟩ := by
+  have hB' : ∀ b ∈ basisOf B, IsPerm b := fun b hb => hB b (basisOf_sub B b hb)
+  have hright : ∀ o o', isRightmost ⟨basisOf B, o⟩ = isRightmost ⟨B, o'⟩ := by
+    intro o o'
+    rw [Bool.eq_iff_iff, isRightmost_iff _ _ fun b hb => (hB' b hb).1, isRightmost_iff _ _ fun b hb => (hB b hb).1]
+    exact forall₂_congr fun a b => exists_basisOf_iff (Juxt a b) (fun p q _ _ h => juxt_closed h) B hB
+  have hmax : ∀ o o', isMaximum ⟨basisOf B, o⟩ = isMaximum ⟨B, o'⟩ := by
+    intro o o'
+    rw [Bool.eq_iff_iff, isMaximum_iff _ _ hB', isMaximum_iff _ _ hB]
+    unfold Rightmost
+    refine forall₂_congr fun a b => ?_
+    have key := exists_basisOf_iff (fun p => Juxt a b (Model.rotate p 1))
+      (fun p q hp hq h => juxt_closed ((C04.contains_rotate hq hp 1).mpr h)) B hB
+    constructor
+    · rintro ⟨p, hp, hj⟩
+      obtain ⟨q, hq, rfl⟩ := List.mem_map.mp hp
+      obtain ⟨r, hr, hj'⟩ := key.mp ⟨q, hq, hj⟩
+      exact ⟨_, List.mem_map.mpr ⟨r, hr, rfl⟩, hj'⟩
+    · rintro ⟨p, hp, hj⟩
+      obtain ⟨q, hq, rfl⟩ := List.mem_map.mp hp
+      obtain ⟨r, hr, hj'⟩ := key.mpr ⟨q, hq, hj⟩
+      exact ⟨_, List.mem_map.mpr ⟨r, hr, rfl⟩, hj'⟩
+  refine ⟨?_, ?_, hright o o', hmax o o', ?_⟩
+  · unfold isFinite
+    rw [Bool.eq_iff_iff]
+    simp only [Bool.and_eq_true, List.any_eq_true]
+    exact and_congr (exists_basisOf_iff _ isDecreasing_closed B hB) (exists_basisOf_iff _ isIncreasing_closed B hB)
+  · rw [Bool.eq_iff_iff, isPolynomial_iff _ _ hB', isPolynomial_iff _ _ hB]
+    exact forall₂_congr fun t _ =>
+      exists_basisOf_iff (polyClass t) (fun p q hp hq h => polyClass_closed hp hq h t) B hB
+  · rw [isInsEnc_list, isInsEnc_list, hright false false, hmax false false]
+
+example : isPolynomial ⟨basisOf [[0, 2, 1, 3], [0, 2, 1]], false⟩ = false := by
+  rw [(verdicts_basisOf _ false false (by decide)).2.1]; decide
+
+/-- **the `Av` wrappers**: whenever `Av.from_iterable(B)` can be built, its `is_finite` /
+    `is_polynomial` / `is_insertion_encodable` answer as the plain functions do on `B` -/
+theorem av_verdicts (B : List NSeq) (hB : ∀ b ∈ B, IsPerm b) (v : Bool) :
+    (avIsFinite B = .ok v → v = isFinite ⟨B, false⟩) ∧
+    (avIsPolynomial B = .ok v → v = isPolynomial ⟨B, false⟩) ∧
+    (avIsInsEnc B = .ok v → v = isInsEnc ⟨B, false⟩) := by
+  have hav : ∀ b, avBasis B = .ok b → b = basisOf B := by
+    intro b h
+    unfold avBasis avCheck at h
+    split at h
+    · cases h
+    · injection h with h; exact h.symm
+  obtain ⟨h1, h2, _, _, h5⟩ := verdicts_basisOf B false false hB
+  refine ⟨?_, ?_, ?_⟩
+  · intro h
+    unfold avIsFinite at h
+    cases hb : avBasis B with
+    | error e => rw [hb] at h; cases h
+    | ok b => rw [hb] at h; injection h with h; rw [← h, hav b hb, h1]
+  · intro h
+    unfold avIsPolynomial at h
+    cases hb : avBasis B with
+    | error e => rw [hb] at h; cases h
+    | ok b => rw [hb] at h; injection h with h; rw [← h, hav b hb, h2]
+  · intro h
+    unfold avIsInsEnc at h
+    cases hb : avBasis B with
+    | error e => rw [hb] at h; cases h
+    | ok b => rw [hb] at h; injection h with h; rw [← h, hav b hb, h5]
 
 end C13
